@@ -28,6 +28,28 @@ pub struct TlcOut {
   pub error_text: String,
 }
 
+/// Outcome of an Apalache run (symbolic check of an inductive invariant): `Some(true)` = no error found,
+/// `Some(false)` = a counterexample, `None` = the tool could not be run to the end (not installed, time limit).
+pub fn apalache(spec_dir: &std::path::Path, out_dir: &std::path::Path, module: &str, args: &[&str], timeout_s: u64) -> (Option<bool>, String) {
+  let _ = std::fs::remove_dir_all(out_dir);
+  let mut cmd = Command::new("timeout");
+  cmd.current_dir(spec_dir).arg(timeout_s.to_string()).arg("apalache-mc").arg("check").arg(format!("--out-dir={}", out_dir.display())).args(args).arg(format!("{}.tla", module)).stdout(Stdio::piped()).stderr(Stdio::piped());
+  match cmd.output() {
+    Err(e) => (None, format!("cannot start apalache-mc: {}", e)),
+    Ok(o) => {
+      let text = String::from_utf8_lossy(&o.stdout).to_string();
+      let _ = std::fs::remove_dir_all(out_dir);
+      if text.contains("EXITCODE: OK") && text.contains("The outcome is: NoError") {
+        (Some(true), text)
+      } else if text.contains("The outcome is: Error") || text.contains("EXITCODE: ERROR (12)") {
+        (Some(false), text)
+      } else {
+        (None, text.lines().rev().take(6).collect::<Vec<_>>().join(" | "))
+      }
+    }
+  }
+}
+
 impl TlcOut {
   /// Payloads of lines `<<"TAG", "json">>`.
   pub fn tagged(&self, tag: &str) -> Vec<J> {
